@@ -39,6 +39,8 @@ def main():
             src = open(mutfile).read()
             for name in res:
                 i = src.find('"%s"' % name)
+                if i < 0:
+                    i = src.find("'%s'" % name)
                 j = src.find('"edits"', i) if i >= 0 else -1
                 seg = src[i:j] if i >= 0 and j > i else ""
                 if '"equivalent": True' in seg or '"slow": True' in seg and False:
